@@ -182,6 +182,30 @@ func (p *Pool) Release(ip net.IP) {
 	}
 }
 
+// Reserve binds ip to mac when ip is the address already allocated to mac or a
+// free address of the pool (which is then taken off the free list). It reports
+// whether mac holds ip afterwards. Addresses held by another client, marked
+// unavailable, or never part of the free list (network, broadcast, gateway,
+// reserved) are refused.
+func (p *Pool) Reserve(mac net.HardwareAddr, ip net.IP) bool {
+	p.mu.Lock()
+	defer p.mu.Unlock()
+
+	macStr := mac.String()
+	if cur, exists := p.allocated[macStr]; exists {
+		return cur.Equal(ip)
+	}
+
+	for i, avail := range p.available {
+		if avail.Equal(ip) {
+			p.available = append(p.available[:i], p.available[i+1:]...)
+			p.allocated[macStr] = avail
+			return true
+		}
+	}
+	return false
+}
+
 // Contains checks if an IP is within this pool
 func (p *Pool) Contains(ip net.IP) bool {
 	return p.Network.Contains(ip)
